@@ -36,7 +36,12 @@ def run(cmd, cwd=None, timeout=3600):
 
 def regenerate_facts():
     import translate
-    return translate.generate_all(repo=REPO, outdir=os.path.join(LEAN_DIR, "FlooVerif", "Gen"))
+    import rtl_tie
+    out = translate.generate_all(repo=REPO, outdir=os.path.join(LEAN_DIR, "FlooVerif", "Gen"))
+    # the routing decision blocks of the RTL, as trees and token lists (tie of Hw.lean to hw/*.sv)
+    path = os.path.join(LEAN_DIR, "FlooVerif", "Gen", "RtlFacts.lean")
+    out[path] = translate.write_if_changed(path, rtl_tie.lean_file(REPO, rtl_tie.extract(REPO)))
+    return out
 
 
 def lake_build():
